@@ -118,7 +118,7 @@ PLANS["C11"] = {
          "properties": ["ErrsAppendOnly"]},
         {"module": "MCErrors",
          "quick": dict(Family="tbl", MaxHist=6, MaxEc=0, MaxRowsE=2, MaxCbs=1),
-         "thorough": dict(Family="tbl", MaxHist=8, MaxEc=0, MaxRowsE=2, MaxCbs=2),
+         "thorough": dict(Family="tbl", MaxHist=7, MaxEc=0, MaxRowsE=2, MaxCbs=1),
          "properties": ["ErrsAppendOnly"]},
     ],
     "random": [{"gen": gens.gen_errors}],
